@@ -31,9 +31,16 @@ def check(v, tier, opts):
         "tea_agg::VecAggValidExt::{vquantile (Lower, Higher, MidPoint), vmedian}", "tea_agg::AggValidExt::vpercentile_of (Rank, Weak, Strict)",
         "tea_rolling::RollingValidCmp::ts_vmin, tea_rolling::RollingValidFeature::ts_vsum (f64 vs Option<f64> output)",
     ])
-    v.bounds.append("N <= 3 quick / 4 thorough for extrema, counts, sums, first/last, percentile ranks; vquantile / vmedian N <= 2 quick / 3 "
-                    "thorough (std select_nth on N+1 slots); q in {0, 0.5, 1} (DESIGN 5.5); elements Option<i32> unconstrained or "
-                    "-2..=2, f64 from -2..=2 with NaN; sums |x| <= 1000")
+    if tier == "quick":
+        v.bounds.append("quick: base series N in 0..=3 (padded series N+1 slots) for extrema, arg-extrema, counts, first/last, sums, "
+                        "percentile ranks and the NaN/None input encodings; vquantile / vmedian N in 0..=2 (std select_nth on 3 slots); "
+                        "ts_vmin / ts_vsum output encodings N in 0..=2 with window 1..=N+1 and min_periods None / 0..=N+1")
+    else:
+        v.bounds.append("thorough: N <= 4 (quantiles, medians and rolling output encodings N <= 3 / 4; ts_vmin / ts_vmax on NaN- versus "
+                        "None-encoded float input N <= 2)")
+    v.bounds.append("q in {0, 0.5, 1} (DESIGN 5.5) x {Lower, Higher, MidPoint}, vmedian = Linear at 0.5; elements Option<i32> unconstrained "
+                    "(extrema, percentile ranks) or -2..=2 (quantiles), f64 from -2..=2 with NaN; sums |x| <= 1000; the slice "
+                    "'exactly one valid element' of the quantile laws is decided by its own harnesses (c08_*_single_valid_*)")
     v.outside.append("lengths above the bound; moments, covariance, correlation (Engine M); Some(NaN) (DESIGN 5.4)")
     v.assumptions.append("canonical nulls only (NaN for f64, None for Option<_>)")
     kani_engine.decide(v, "C08", tier, opts)
